@@ -170,6 +170,9 @@ class StubGw:
         self.spec = spec
 
     def exit(self):
+        # as Gateway.exit: a gateway that is no longer a member does nothing
+        if self not in self._group:
+            return
         self._group._unregister(self)
 
     def __eq__(self, other):
@@ -206,8 +209,8 @@ def group_part(ck, model_ok, tier, replay):
                 ops = []
                 nmk = 0
                 for _i in range(rng.randint(1, 9)):
-                    if nmk and rng.random() < 0.3:
-                        ops.append(("exit", rng.randrange(nmk)))
+                    if nmk and rng.random() < 0.35:
+                        ops.append(("exit", rng.randrange(nmk)))      # also of a gateway that has exited before (stale object)
                     else:
                         ops.append(("make", rng.choice([None, None, "a", "b", "gw0", "gw1", "gw2"])))
                         nmk += 1
@@ -218,6 +221,13 @@ def group_part(ck, model_ok, tier, replay):
             group = multi.Group()
             outcomes, gws_made = [], []
             dup_seen = False
+
+            class _Foreign(dict):
+                def __missing__(self, k):
+                    self[k] = StubGw(type("S", (), {"id": k})())
+                    return self[k]
+
+            foreign = _Foreign()
             for op in ops:
                 if op[0] == "make":
                     del started[:]
@@ -234,18 +244,34 @@ def group_part(ck, model_ok, tier, replay):
                         gws_made.append(None)
                 else:
                     gw = gws_made[op[1]]
-                    if gw is not None and gw in group._gateways:
-                        gw.exit()
-                        outcomes[op[1]] = [6, 0]
+                    if gw is not None:
+                        live = any(g is gw for g in group._gateways)
+                        try:
+                            gw.exit()
+                        except Exception as e:  # noqa
+                            ck.fail("group-exit-of-a-%s-gateway-raises:%s" % ("live" if live else "stale", type(e).__name__), {"ops": ops, "id": gw.id})
+                        if live:
+                            outcomes[op[1]] = [6, 0]
                 ids = [g.id for g in group]
                 if len(set(ids)) != len(ids):
                     dup_seen = True
                 # lookup by id / index / membership agree with iteration order
                 for i, g in enumerate(group):
-                    if group[i] is not g or group[g.id] is not g or g.id not in group:
+                    try:
+                        bad = group[i] is not g or group[g.id] is not g or g.id not in group
+                    except (KeyError, IndexError):
+                        bad = True
+                    if bad:
                         ck.fail("group-lookup-disagrees", {"ops": ops})
                 if "nope" in group:
                     ck.fail("group-lookup-disagrees", {"ops": ops})
+                # membership of a gateway OBJECT is identity: an exited gateway whose id was taken again, or a gateway of
+                # another group with the same id, is not a member
+                for g in gws_made:
+                    if g is not None and (g in group) != any(m is g for m in group):
+                        ck.fail("group-membership-of-a-stale-gateway-object", {"ops": ops, "id": g.id})
+                if len(group) and (foreign[group[0].id] in group):
+                    ck.fail("group-membership-of-a-foreign-gateway-object", {"ops": ops, "id": group[0].id})
             if dup_seen:
                 ck.fail("group-duplicate-live-id", {"ops": ops})
             leaked = [o for o in outcomes if o[0] == 5 and o[1] == 1]
